@@ -17,7 +17,7 @@ Section More.
     unfold proc_inc. destruct page as [|x page]; cbn [nonempty andb negb].
     - rewrite ds_write_nil. destruct (is_diebefore flt idx); [discriminate|].
       destruct (is_dieafter flt idx); [discriminate|]. intros [= <- <-]. auto.
-    - destruct (is_sinkfail flt idx); [discriminate|]. destruct (is_sinkpanic flt idx); [discriminate|].
+    - destruct (sink_fails flt idx (x :: page)); [discriminate|]. destruct (is_sinkpanic flt idx); [discriminate|].
       destruct (is_diebefore flt idx); [discriminate|]. destruct (is_dieafter flt idx); [discriminate|].
       destruct (is_kill flt idx); discriminate.
   Qed.
@@ -263,8 +263,8 @@ Section Runs2.
     intros Hg Hwf Hfull H.
     pose proof (run_inc_safe owner n v Hv _ _ _ _ Hg Hwf Hfull H) as Hg'.
     split; [|exact Hg']. apply at_end_converged; [|apply Hg'].
-    destruct Hg as (Hn & Hown & [Hlen Hs]). destruct Hwf as (Hb & Hn1 & Hsingle).
-    unfold run_job in H. destruct (r_union r && is_srcfail (r_flt r) 0); [discriminate|].
+    destruct Hg as (Hn & Hown & [Hlen Hs]). destruct Hwf as (Hb & Hn1 & Hsingle & _).
+    unfold run_job in H. destruct (early_fail r); [discriminate|].
     unfold run_body in H. rewrite Hfull in H. fold eqf dm in H.
     destruct (r_union r) eqn:Hu.
     - destruct (inc_union _ _ _ _ _ _ _ _ _ _ _ _) as [[s t] o1] eqn:Hrun in H.
@@ -300,8 +300,8 @@ Section Runs2.
     r_full r = true -> r_flt r = FNone ->
     exists st', run_job v st r = (st', OOk).
   Proof.
-    intros Hn Hown (Hb & Hn1 & Hsingle) Hfull Hflt.
-    unfold run_job. rewrite Hflt. cbn [is_srcfail]. rewrite andb_false_r.
+    intros Hn Hown (Hb & Hn1 & Hsingle & _) Hfull Hflt.
+    unfold run_job. rewrite (early_fail_none _ Hflt).
     unfold run_body. rewrite Hfull, Hflt. fold eqf dm.
     destruct (r_union r) eqn:Hu.
     - destruct (full_union_nofault eqf dm Heq owner (r_los r) (r_b r) (st_srcs st) Hown
@@ -320,9 +320,9 @@ Lemma run_idem_any owner n v st r :
   at_end (st_srcs st) (st_tok st) -> length (st_srcs st) = n -> wf_op owner n (ORun r) ->
   r_full r = false -> exists o, run_job v st r = (st, o).
 Proof.
-  intros Hend Hn (Hb & Hn1 & Hsingle) Hfull.
+  intros Hend Hn (Hb & Hn1 & Hsingle & _) Hfull.
   unfold run_job. destruct st as [srcs sink tok]. cbn [st_srcs st_sink st_tok] in *.
-  destruct (r_union r && is_srcfail (r_flt r) 0); [rewrite Hfull; eauto|].
+  destruct (early_fail r); [rewrite Hfull; eauto|].
   unfold run_body. rewrite Hfull. cbn [st_srcs st_sink st_tok].
   destruct (r_union r) eqn:Hu.
   - destruct (inc_union_idem_any (weq (vm_eq v)) (vm_dup v) (r_los r) (r_b r) srcs (fuel_of srcs) sink tok 0 0 (r_flt r))
@@ -395,11 +395,11 @@ Section Origin.
     good owner n st -> orig owner (st_srcs st) (st_sink st) -> wf_op owner n (ORun r) ->
     run_job v st r = (st', o) -> orig owner (st_srcs st') (st_sink st').
   Proof.
-    intros (Hn & Hown & [Hlen Hs]) Ho (Hb & Hn1 & Hsingle) H.
+    intros (Hn & Hown & [Hlen Hs]) Ho (Hb & Hn1 & Hsingle & _) H.
     assert (Hmem : forall s, wrote eqf dm (from_member (st_srcs st)) (st_sink st) s -> orig owner (st_srcs st) s).
     { intros s W. apply orig_wrote with (st_sink st); [|exact Ho].
       eapply wrote_weaken; [|exact W]. intros x (k & Hk & Hx). eapply okv_member; eauto. }
-    unfold run_job in H. destruct (r_union r && is_srcfail (r_flt r) 0).
+    unfold run_job in H. destruct (early_fail r).
     { injection H as <- _. exact Ho. }
     unfold run_body in H. fold eqf dm in H.
     destruct (r_full r) eqn:Hfull; destruct (r_union r) eqn:Hu.
@@ -437,7 +437,7 @@ Section Origin.
     good owner n st -> orig owner (st_srcs st) (st_sink st) -> wf_op owner n o ->
     step v st o = (st', out) -> orig owner (st_srcs st') (st_sink st').
   Proof.
-    intros Hg Ho Hwf H. destruct o as [k es|es|r].
+    intros Hg Ho Hwf H. destruct o as [k es|es| | |r].
     - cbn [step] in H. injection H as <- _. cbn [st_srcs st_sink].
       destruct (ds_write_prefix (weq (vm_eq v)) (vm_dup v) (nth k (st_srcs st) []) es) as (w & Ew & _).
       apply orig_grow with (st_srcs st); [now rewrite upd_length | | exact Ho].
@@ -448,6 +448,8 @@ Section Origin.
     - cbn [step] in H. injection H as <- _. cbn [st_srcs st_sink]. fold eqf dm.
       apply orig_write; [exact Ho|]. intros x Hx Hlt. cbn [wf_op] in Hwf. specialize (Hwf x Hx).
       destruct Hg as (Hn & _). lia.
+    - destruct Hwf.
+    - cbn [step] in H. injection H as <- _. exact Ho.
     - cbn [step] in H. destruct (run_job v st r) as [st1 o1] eqn:Hrun. injection H as <- _.
       eapply run_orig; eauto.
   Qed.
@@ -506,4 +508,89 @@ Proof.
     destruct (In_ids_inv _ _ Hi) as (x & Hx & Hxi).
     assert (Hok : owner (v_id w) = k) by (rewrite Hid, <- Hxi; now apply Hown).
     specialize (Ho' i w E). unfold okv in Ho'. rewrite Hok in Ho'. now apply Ho'.
+Qed.
+
+(** ** A run while the sink dataset does not exist (the sink is resolved by name at every call)
+    writes nothing and does not move any token forward *)
+Lemma proc_inc_nosink {T} eqf dm sink (stored : T) page newtok idx s t r :
+  proc_inc eqf dm sink stored page newtok idx FNoSink = (s, t, r) ->
+  s = sink /\ ((page <> [] /\ t = stored /\ r = Some OFailed) \/ (page = [] /\ t = newtok /\ r = Some OOk)).
+Proof.
+  unfold proc_inc. destruct page as [|x page]; cbn [nonempty andb negb sink_fails is_sinkfail is_nosink orb
+    is_sinkpanic is_diebefore is_dieafter is_kill].
+  - rewrite ds_write_nil. intros [= <- <- <-]. auto.
+  - intros [= <- <- <-]. split; [reflexivity|]. left. repeat split. discriminate.
+Qed.
+
+Lemma page_empty_next lo src t b page next :
+  process_changes lo src t b = (page, next) -> page = [] -> next = t.
+Proof.
+  intros Hp ->. destruct (process_changes_spec _ _ _ _ _ _ Hp) as (n & Hn & _ & Hne & Hnil & _).
+  destruct (skipn t src) as [|x rest] eqn:E.
+  - destruct (Hnil eq_refl) as [_ ->]. lia.
+  - destruct (Hne ltac:(discriminate)) as [_ Hc]. congruence.
+Qed.
+
+Lemma inc_single_nosink eqf dm lo b src fuel sink stored idx s t o :
+  inc_single fuel eqf dm lo b src sink stored idx FNoSink = (s, t, o) ->
+  s = sink /\ asincr t = asincr stored.
+Proof.
+  destruct fuel as [|fuel]; cbn [inc_single is_srcfail]; [intros [= <- <- _]; auto|].
+  destruct (process_changes lo src (asincr stored) b) as [page next] eqn:Hp.
+  destruct (proc_inc eqf dm sink stored page (Some next) idx FNoSink) as [[s1 t1] r1] eqn:Hpi.
+  destruct (proc_inc_nosink _ _ _ _ _ _ _ _ _ _ Hpi) as (-> & [(_ & -> & ->)|(He & -> & ->)]);
+    intros [= <- <- _]; split; auto.
+  cbn [asincr]. eapply page_empty_next; eauto.
+Qed.
+
+Lemma inc_union_nosink eqf dm los b srcs : forall fuel sink stored mem a idx s t o,
+  length mem = length stored -> a < length mem ->
+  (forall k, asincr (nth k mem None) = asincr (nth k stored None)) ->
+  inc_union fuel eqf dm los b srcs sink stored mem a idx FNoSink = (s, t, o) ->
+  s = sink /\ length t = length stored /\ forall k, asincr (nth k t None) = asincr (nth k stored None).
+Proof.
+  induction fuel as [|fuel IH]; intros sink stored mem a idx s t o Hl Ha Hpos H; cbn [inc_union] in H.
+  - injection H as <- <- _. auto.
+  - destruct (process_changes (nth a los false) (nth a srcs []) (asincr (nth a mem None)) b)
+      as [page next] eqn:Hp.
+    destruct (union_update mem a (Some next)) as [[mem1 keep] a'] eqn:Hu.
+    destruct (union_update_spec _ _ _ _ _ _ Hu Ha) as (-> & Ha' & _).
+    assert (Hpos' : page = [] -> forall k, asincr (nth k (upd a (Some next) mem) None) = asincr (nth k stored None)).
+    { intros He k. destruct (Nat.eq_dec k a) as [->|Hka].
+      - rewrite nth_upd_eq by assumption. cbn [asincr]. rewrite (page_empty_next _ _ _ _ _ _ Hp He). apply Hpos.
+      - rewrite nth_upd_neq by congruence. apply Hpos. }
+    destruct (nonempty page || negb keep) eqn:Hc.
+    + destruct (proc_inc eqf dm sink stored page (upd a (Some next) mem) idx FNoSink) as [[s1 t1] r1] eqn:Hpi.
+      destruct (proc_inc_nosink _ _ _ _ _ _ _ _ _ _ Hpi) as (-> & [(_ & -> & ->)|(He & -> & ->)]);
+        injection H as <- <- _.
+      * auto.
+      * split; [reflexivity|]. split; [now rewrite upd_length|]. now apply Hpos'.
+    + apply orb_false_iff in Hc. destruct Hc as [Hc _].
+      assert (He : page = []) by (destruct page; [reflexivity|discriminate]).
+      eapply IH; [| | | exact H]; [now rewrite upd_length | now rewrite upd_length | now apply Hpos'].
+Qed.
+
+Theorem run_nosink v st r st' o :
+  r_flt r = FNoSink -> length (st_tok st) = length (st_srcs st) -> 1 <= length (st_srcs st) ->
+  run_job v st r = (st', o) ->
+  st_sink st' = st_sink st /\ st_srcs st' = st_srcs st /\ length (st_tok st') = length (st_tok st)
+  /\ forall k, asincr (nth k (st_tok st') None) <= asincr (nth k (st_tok st) None).
+Proof.
+  intros Hflt Hl Hn H. unfold run_job, early_fail in H. rewrite Hflt in H. cbn [is_srcfail is_nosink] in H.
+  rewrite andb_false_r, andb_true_r in H. cbn [orb] in H.
+  destruct (r_full r) eqn:Hfull.
+  - injection H as <- _. cbn [st_sink st_srcs st_tok]. split; [reflexivity|]. split; [reflexivity|].
+    destruct (vm_fs v); [auto|]. split; [rewrite none_tokens_length; lia|].
+    intros k. rewrite nth_none_tokens. cbn. lia.
+  - unfold run_body in H. rewrite Hfull, Hflt in H. destruct (r_union r).
+    + destruct (inc_union _ _ _ _ _ _ _ _ _ _ _ _) as [[s t] o1] eqn:Hrun in H. injection H as <- _.
+      assert (Ha0 : 0 < length (st_tok st)) by lia.
+      destruct (inc_union_nosink _ _ _ _ _ _ _ _ _ _ _ _ _ _ eq_refl Ha0 (fun k => eq_refl) Hrun)
+        as (-> & Hlt & Hp).
+      cbn [st_sink st_srcs st_tok]. repeat split; auto. intros k. rewrite Hp. lia.
+    + destruct (inc_single _ _ _ _ _ _ _ _ _ _) as [[s t] o1] eqn:Hrun in H. injection H as <- _.
+      destruct (inc_single_nosink _ _ _ _ _ _ _ _ _ _ _ _ Hrun) as (-> & Hp).
+      cbn [st_sink st_srcs st_tok]. split; [reflexivity|]. split; [reflexivity|].
+      destruct (st_tok st) as [|t0 l]; [cbn in Hl; lia|]. cbn [upd nth length] in *.
+      split; [reflexivity|]. intros [|k]; cbn [nth]; lia.
 Qed.
